@@ -31,6 +31,10 @@ def run(c):
     wfc, _ = run_lines_sharded(vm, ['wfcore %d %s' % (1 if x['late'] else 0, G.sx_tree(x['tree'])) for x in cases])
     c.cov['charts_in_reach_of_run_always_legal'] = sum(1 for b in wfc if b == '1')
     c.cov['charts_total'] = len(cases)
+    # reach of the legality theorems beyond the core (extracted predicates): wf_initb (<initial>, deep initial attributes),
+    # wf_histb (histories recording disjoint states; large engine), wf_fastb (fast engine), core_treeb (document level)
+    reach = theorem_reach(c, cases, vflags, want=('reach',))
+    c.cov['theorem_reach'] = {b: sum(1 for r in reach if r.get('reach', {}).get(b)) for b in REACH_BITS}
     nconf = 0
     distinct = set()
     bad = []      # (eng, i, cfg)
@@ -71,6 +75,9 @@ def run(c):
         cls = 'illegal-configuration'
         if follows_model and history_overlap(res['spec'][i]):
             cls = 'illegal-configuration:history-overlap'
+        # inside the reach of run_always_legal_history / _fast the models cannot produce an illegal configuration at all
+        if reach[i].get('reach', {}).get('wf_histb' if eng == 'large' else 'wf_fastb'):
+            cls += '+inside-run_always_legal_history'
         by_class.setdefault((eng, cls), []).append((i, cf))
     c.cov['illegal_by_class'] = {'%s/%s' % k: len(v) for k, v in by_class.items()}
     for (eng, cls), lst in sorted(by_class.items()):
